@@ -506,6 +506,8 @@ type Contract struct {
 	Asserts  []Clause
 	Assumes  []Clause // stated mathematical facts, assumed when verifying the body; listed in the evidence
 	AtCalls  []AtCall // ghost assertions checked in the state just before a call to a named callee
+	AssumeFrames []AssumeFrame // assumed frames of calls that have no contract (listed as assumptions)
+	Use      map[string][]string // callee name suffix -> labels of the callee's ensures clauses assumed at its calls here (the others are not used: assuming less is sound)
 	Dynamic  map[string]string // parameter of interface type -> concrete type it is verified for (devirtualised method calls)
 	Strings  bool     // use the SMT string theory for Go strings in this function's conditions
 	Bytes    bool     // byte-level string model: string (in)equality is extensional over length and bytes
@@ -547,6 +549,16 @@ type Lemma struct {
 	PkgPath string
 	Uses    []string // function contracts instantiated (unused for now)
 	File    string
+}
+
+// AssumeFrame: an assumed frame for calls to a contract-less callee (name suffix, or
+// "$dynamic" for calls of function values) inside one function: the call may write only
+// the listed heap maps, and there only the footprint objects.
+type AssumeFrame struct {
+	Callee    string
+	Modifies  []string
+	Footprint []*Node
+	Src       string
 }
 
 // Pin ties the assumed `global` facts about a package-level variable to the
@@ -902,6 +914,45 @@ func (cs *ContractSet) LoadContractFile(path, pkgPath string) error {
 				return fail(err)
 			}
 			cur.AtCalls = append(cur.AtCalls, AtCall{Callee: strings.TrimSpace(rest[:k]), Clause: cl})
+		case "assume-frame":
+			// assume-frame <callee|$dynamic> <modifies, ...> | <footprint expr, ...>
+			if cur == nil {
+				return fail(fmt.Errorf("assume-frame outside func"))
+			}
+			f := strings.SplitN(strings.TrimSpace(rest), " ", 2)
+			if len(f) != 2 {
+				return fail(fmt.Errorf("assume-frame needs: assume-frame <callee> <modifies> | <footprint>"))
+			}
+			af := AssumeFrame{Callee: f[0], Src: strings.TrimSpace(rest)}
+			parts := strings.SplitN(f[1], "|", 2)
+			for _, m := range strings.Split(parts[0], ",") {
+				if m = strings.TrimSpace(m); m != "" {
+					af.Modifies = append(af.Modifies, m)
+				}
+			}
+			if len(parts) == 2 {
+				for _, fe := range splitTop(parts[1]) {
+					e, err := ParseExpr(fe)
+					if err != nil {
+						return fail(err)
+					}
+					af.Footprint = append(af.Footprint, e)
+				}
+			}
+			cur.AssumeFrames = append(cur.AssumeFrames, af)
+		case "use":
+			// use <callee suffix> <label,label,...|none>: of that callee's postconditions only these are assumed
+			if cur == nil || len(fields) != 3 {
+				return fail(fmt.Errorf("use needs: use <callee> <labels|none>"))
+			}
+			if cur.Use == nil {
+				cur.Use = map[string][]string{}
+			}
+			var ls []string
+			if fields[2] != "none" {
+				ls = strings.Split(fields[2], ",")
+			}
+			cur.Use[fields[1]] = ls
 		case "dynamic":
 			// dynamic <param> <Type>: verify for this dynamic type of an interface parameter
 			if cur == nil || len(fields) != 3 {
